@@ -295,7 +295,7 @@ func c11Exhaustive(c *Ctx, maxN int) []bitmap {
 
 func runC11(c *Ctx) {
 	c.Level = "model_checking"
-	c.Rule = "part A: every labelled graph with n<=7 (8 thorough) against a bottom-up K5/K3,3-minor table (cross-checked with the published counts of labelled planar graphs), other representations for n<=6, monotonicity under edge deletion on the library's own answers; part B: explicit-state BFS over truth-preserving operations (subdivide, pendant, isolated vertex, relabel, delete edge on the planar side, add edge on the non-planar side) from seeds of known planarity (all triangulations generated from K4 by two expansions, wheels, prisms, antiprisms, icosahedron; K5, K3,3 and their subdivisions), n<=14, deduplicated on the labelled edge set; non-trivial = non-planar graph (part A) or state with n >= 9 (part B)"
+	c.Rule = "part A: every labelled graph with n<=7 (8 thorough) against a bottom-up K5/K3,3-minor table (cross-checked with the published counts of labelled planar graphs), other representations for n<=6, monotonicity under edge deletion on the library's own answers; part B: explicit-state BFS over truth-preserving operations (subdivide, pendant, isolated vertex, relabel, delete edge on the planar side, add edge on the non-planar side) from seeds of known planarity (all triangulations generated from K4 by two expansions, wheels, prisms, antiprisms, icosahedron; K5, K3,3 and their subdivisions), n<=14, deduplicated on the labelled edge set; part C: graphs with 63-140 vertices of known planarity (wheels with the hub at several labels, path cubes, random triangulations grown by the two expansions and their subgraphs, grids, chains of blocks, triangulations plus a subdivided extra edge, torus grid, heavily subdivided K5/K3,3/Petersen) under identity, reversal, rotations and pseudo-random relabellings, dense and sparse; non-trivial = non-planar graph (part A) or state with n >= 9 (part B)"
 	maxN := 7
 	if c.Thorough() {
 		maxN = 8
@@ -314,6 +314,7 @@ func runC11(c *Ctx) {
 		})
 	}
 	c11Search(c, tables)
+	c11Large(c)
 	c.Sample("labelled-graph", planarCase{N: 7, Mask: 0x1fffff &^ 0x3, G6: g6(7, 0x1fffff&^0x3), Rep: "dense"})
 	c.Assume("graphs with n >= 9 are covered only through the operation search of part B")
 }
@@ -337,6 +338,9 @@ func replayC11(kind string, raw json.RawMessage) *Failure {
 		}
 		return evalPlanarSmall(pc, c11Tables)
 	case "planar-state":
+		if pc.N > 64 {
+			return evalPlanarStateEG(pc)
+		}
 		return evalPlanarState(pc)
 	}
 	return &Failure{Class: "replay/unsupported-kind", What: kind}
